@@ -1,4 +1,4 @@
-"""C13 extension (PENDING: fires on today's tree - genuine pytype defect).
+"""C13 extension R13.23 (D65, repaired): keyword-only defaults survive `__defaults__ = t`.
 
 R13.23  `f.__defaults__ = t` only describes the positional parameters; the
         defaults of keyword-only parameters live in `__kwdefaults__` and are
@@ -67,6 +67,11 @@ VARIANTS = [
             "      if name not in self.signature.kwonly_params:\n"
             "        del self.signature.defaults[name]\n"
             "    self.signature.defaults.update(defaults)\n"},
+    {"name": "twin-keyword-only-entries-copied-by-loop", "rule": "R13.23", "file": D.FB,
+     "expect": "silent", "old": D._OLD,
+     "new": "    for name in self.signature.kwonly_params:\n"
+            "      if name in self.signature.defaults:\n"
+            "        defaults[name] = self.signature.defaults[name]\n" + D._OLD},
     {"name": "rebinding-to-positional-mapping", "rule": "R13.23", "file": D.FB,
      "expect": "fire", "old": D._OLD,
      "new": "    self.signature.defaults = dict(defaults)\n"},
